@@ -65,7 +65,7 @@ func c01Classes(m *AMsg, path string, tcpIn bool, at labRx) {
 func TestC01(t *testing.T) {
 	V.Rule("lab: well-formed requests (any method token; sip/sips/tel/urn Request-URI with users, passwords, ports, valued/valueless parameters, URI headers) and responses (100-699), 0-40 extension headers (token names incl. compact/odd-case/repeated; values empty, long around the 4096/8192/16384 windows, rich in % \" ; , < > = : @ ?, UTF-8, invalid UTF-8, NUL/TAB, white-space-like runes at the edges), any From/To/Call-ID/CSeq, bodies 0-60 KiB of arbitrary bytes, drawn header-name spelling, list layout and header interleaving; relayed over the four paths (backend, Route, static route, response by Via), UDP and TCP ingress/egress, listen entries with different settings; output read by the independent reader. non-trivial = >= 1 extension header and (a value with a non-token byte or > 4096 bytes, or a non-canonical spelling, or a non-empty body); distinct by input bytes + path")
 	V.Assume("outside the domain and not generated: folded lines, blanks before the colon, runs of blanks in the start line, messages without Content-Length, CR/LF inside values")
-	V.Require("pipelined over tcp", "path:backend", "path:route", "path:static", "path:response", "ingress:tcp", "ingress:udp", "egress:tcp", "egress:udp", "header line > 4096 bytes", "body has NUL/CR/LF", "non-canonical Content-Length spelling", "response or tel/urn Request-URI")
+	V.Require("a second request with the Via stack and method of the one before, other content", "pipelined over tcp", "path:backend", "path:route", "path:static", "path:response", "ingress:tcp", "ingress:udp", "egress:tcp", "egress:udp", "header line > 4096 bytes", "body has NUL/CR/LF", "non-canonical Content-Length spelling", "response or tel/urn Request-URI")
 	svc, err := newStdSvc(stdVariant{Keep: "", Default: false, NoReceived: [3]string{"", "true", ""}, MustRR: [3]string{"", "true", ""}})
 	if err != nil {
 		V.HarnessError(t, "cannot start lab instance: %v", err)
@@ -127,6 +127,45 @@ func TestC01(t *testing.T) {
 		for _, r := range res.Got {
 			if f := checkContent(rc.Msg, r.msg); f != "" {
 				failf(rt, "%s path, arrived at %s: %s", rc.Path, r.where(), f)
+			}
+		}
+		// Now and then another request follows from the same sender with the very
+		// same Via stack (sent-by and branch included) and method but other content
+		// - a sender that does not renew its branch, or a request re-sent with
+		// another body: what is relayed for it is its own content all the same.
+		if len(rc.Msg.Vias()) > 0 && rapid.IntRange(0, 7).Draw(rt, "a second request with the same Via stack and method") == 0 {
+			sib := relayCase{Path: rc.Path, Ingress: rc.Ingress, Msg: rc.Msg.Clone(), FirstRt: rc.FirstRt, HopKind: rc.HopKind}
+			for i := range sib.Msg.Hdrs {
+				h := &sib.Msg.Hdrs[i]
+				switch h.Kind {
+				case hCallID:
+					h.Value = s.nextID("sib-") + h.Value
+				case hExt:
+					if !interpretedNames[strings.ToLower(h.Name)] && len(h.Value) < 4096 {
+						h.Value = "2nd " + h.Value
+					}
+				}
+			}
+			sib.Msg.Body = append([]byte("second request\x00\r\n"), sib.Msg.Body...)
+			if !(sib.Ingress.TCP && len(sib.Msg.Bytes()) > 63000) {
+				fitUDP(sib.Msg, 63000)
+			}
+			sib.Wire = jsonBytes(sib.Msg.Bytes())
+			V.Journal(t.Name()+"/requests", map[string]any{"first": rc, "second_same_via_stack": sib})
+			res2, err := s.runRequest(sib)
+			if _, lost := err.(labLost); lost {
+				failf(rt, "second request with the Via stack of the one before: %v", err)
+			} else if err != nil {
+				V.HarnessError(rt, "%v", err)
+			}
+			V.Class("a second request with the Via stack and method of the one before, other content")
+			if !res2.Exp.Drop && len(res2.Got) == 0 {
+				failf(rt, "a second request with the same Via stack and method as the one before it, but another Call-ID and body, was not relayed at all (%s path)", rc.Path)
+			}
+			for _, r := range res2.Got {
+				if f := checkContent(sib.Msg, r.msg); f != "" {
+					failf(rt, "second request with the Via stack and method of the one before (%s path), arrived at %s: %s", rc.Path, r.where(), f)
+				}
 			}
 		}
 	})
